@@ -50,14 +50,19 @@ class Meta(dict):
         return super().__getitem__(item)
 
     def update(self, *args, **kwargs):
+        other = {}
         if args:
             if len(args) > 1:
                 raise ValueError('Only one argument can be input')
-            other = dict(args[0])
-            for key in other:
-                self[key] = other[key]
-        for key in kwargs:
-            self[key] = kwargs[key]
+            other.update(dict(args[0]))
+        other.update(kwargs)
+
+        # validate all keys first so that a failed update changes nothing
+        for key in other:
+            if self.key_mapping.get(key, key) not in self.valid_keys:
+                raise KeyError(f'{key} is not a valid key for this class.')
+        for key, value in other.items():
+            self[key] = value
 
     def setdefault(self, key, value=None):
         if key not in self:
